@@ -973,6 +973,56 @@ def reprocess_guard(ctx):
         raise AnalysisError("C03.9 (guard) matched %d hand-backs after a possibly ineffective call (expected >= 15)" % n)
 
 
+# ---------------------------------------------------------------------------- C03.13
+def bounded_int(ctx):
+    """C03.13: CPython (>= 3.11) refuses to convert a decimal string of more than 4300 digits (`int()` raises ValueError;
+    radixes that are powers of two are exempt).  On the parse path every `int(<text taken from the input>, radix)` must
+    therefore use a power-of-two radix, sit in a `try` that catches ValueError, or be guarded by a test on the length of its
+    argument -- otherwise a long run of digits in the input makes parse() raise."""
+    r = ctx.r
+    n = 0
+    for rel in ("_tokenizer.py", "_inputstream.py", "html5parser.py", "treebuilders/base.py", "treebuilders/etree.py", "treebuilders/dom.py"):
+        mod = ctx.repo.module(rel)
+        for f in mod.all_functions:
+            parents = {}
+            for p in ast.walk(f.node):
+                for c in ast.iter_child_nodes(p):
+                    parents[id(c)] = p
+            for c in walk_no_nested(f.node):
+                if not (isinstance(c, ast.Call) and isinstance(c.func, ast.Name) and c.func.id == "int" and c.args):
+                    continue
+                arg = c.args[0]
+                if ctx.ce.try_eval(arg, mod) is not None or isinstance(arg, (ast.Constant, ast.Num if hasattr(ast, "Num") else ast.Constant)):
+                    continue
+                if not any(isinstance(x, (ast.Name, ast.Attribute, ast.Subscript, ast.Call)) for x in ast.walk(arg)):
+                    continue
+                n += 1
+                radix = ctx.ce.try_eval(c.args[1], mod) if len(c.args) > 1 else 10
+                names = {x.id for x in ast.walk(arg) if isinstance(x, ast.Name)}
+                guarded = None
+                if radix in (2, 4, 8, 16, 32):
+                    guarded = "power-of-two radix"
+                p = c
+                while guarded is None and id(p) in parents:
+                    q = parents[id(p)]
+                    if isinstance(q, ast.Try) and p in q.body and any(
+                            h.type is None or any(nm in norm(h.type) for nm in ("ValueError", "Exception")) for h in q.handlers):
+                        guarded = "try/except ValueError"
+                    if isinstance(q, (ast.IfExp, ast.If)) and any(
+                            isinstance(t, ast.Call) and norm(t.func) == "len" and t.args and
+                            ({x.id for x in ast.walk(t.args[0]) if isinstance(x, ast.Name)} & names) for t in ast.walk(q.test)):
+                        guarded = "length test"
+                    p = q
+                key = "bounded-int::%s::%s" % (f.qual, norm(arg)[:30])
+                r.check("C03.13", guarded is not None, key, "%s:%d" % (rel, c.lineno),
+                        "%s converts input text with int(%s, %s) without a length guard or ValueError handler: CPython refuses decimal "
+                        "strings longer than 4300 digits, so a numeric reference with thousands of digits makes parse() raise ValueError"
+                        % (f.qual, norm(arg)[:40], norm(c.args[1]) if len(c.args) > 1 else "10"),
+                        {"function": f.qual}, detail={"function": f.qual, "guard": guarded})
+    if n < 1:
+        raise AnalysisError("C03.13: no int() conversion of input text found on the parse path")
+
+
 # ---------------------------------------------------------------------------- C03.6
 def dispatch_total(ctx):
     r = ctx.r
@@ -1015,6 +1065,7 @@ def run(ctx):
     r.rule("C03.11", "a possibly-None return component is not passed to a parameter that is dereferenced unconditionally", floor=2)
     r.rule("C03.9", "a handler that hands the token back for reprocessing has changed the insertion mode / stack first", floor=40)
     r.rule("C03.12", "insertion-mode transitions are the standard's (handlers rely on the skeleton their mode implies: body element, frameset, table context)", floor=120)
+    r.rule("C03.13", "int() of input text uses a power-of-two radix, a ValueError handler or a length guard", floor=1)
     r.rule("C03.6", "every phase has a concrete handler for every token kind and tag name", floor=100)
     constkey(ctx)
     recursion(ctx)
@@ -1027,6 +1078,7 @@ def run(ctx):
     none_argument(ctx)
     from . import modes
     modes.run(ctx, "C03.12")
+    bounded_int(ctx)
     dispatch_total(ctx)
     from . import c03_tok
     c03_tok.run(ctx)
@@ -1040,6 +1092,8 @@ def thorough(ctx):
 def mutants():
     from ..selftest import TextMutant as T
     return [
+        T("int-unbounded-digits", "_tokenizer.py", "        number = \"\".join(charStack).lstrip(\"0\")\n        if len(number) > 7:\n            charAsInt = 0x110000\n        else:\n            charAsInt = int(number or \"0\", radix)\n",
+          "        charAsInt = int(\"\".join(charStack), radix)\n", "C03.13"),
         T("inrow-endtable-unguarded", "html5parser.py",
           "        # Reprocess the current tag if the tr end tag was not ignored\n        # XXX how are we sure it's always ignored in the innerHTML case?\n        if not ignoreEndTag:\n            return token",
           "        # Reprocess the current tag if the tr end tag was not ignored\n        return token", "C03.9"),
